@@ -8,7 +8,7 @@ import warnings as _warnings
 from . import smt
 from .terms import (And, Or, Not, Implies, Ite, Eq, asV, asB, asI, asS, mkB, mkI, mkS, TRUE, FALSE,
                     const_term, seq_of_terms)
-from .values import (Val, PyC, PyList, SymObj, SDict, Closure, BM, Exc, OutOfSubset, fresh_name)
+from .values import (CondList, Val, PyC, PyList, SymObj, SDict, Closure, BM, Exc, OutOfSubset, fresh_name)
 from .exprs import is_exc
 
 
@@ -203,6 +203,8 @@ class BuiltinMixin:
         if isinstance(x, PyC) and type(x.obj).__name__ in ("odict_values", "dict_values", "mappingproxy"):
             return [(st, PyList([PyC(i) for i in list(x.obj)], "list"))]
         lx = self.lift(x)
+        if lx.kind == "list":
+            return [(st, Val(asV(lx), kind="list", fresh=TRUE))]      # a copy: same value, fresh identity
         if lx.kind in ("list", "tuple", "set"):
             return [(st, Val(f"(v_list (seqof {asV(lx)}))", kind="list", fresh=TRUE))]
         if lx.kind in ("dict_values",):
